@@ -548,9 +548,9 @@ func (c *Client) ReadMsg(b []byte) (n int, err error) {
 		}
 	case clientStateError:
 		return 0, c.err
-	case clientStateClosing:
-		return 0, io.EOF
-	case clientStateClosed:
+	case clientStateClosing, clientStateClosed:
+		// Also while Close is still under way: answering end-of-stream at once
+		// would report it ahead of messages that were queued before the close
 		<-c.closeDone
 		if c.ss == nil || c.ss.handle == nil {
 			return 0, io.EOF
@@ -568,9 +568,9 @@ func (c *Client) Read(b []byte) (n int, err error) {
 		}
 	case clientStateError:
 		return 0, c.err
-	case clientStateClosing:
-		return 0, io.EOF
-	case clientStateClosed:
+	case clientStateClosing, clientStateClosed:
+		// Also while Close is still under way: answering end-of-stream at once
+		// would report it ahead of messages that were queued before the close
 		<-c.closeDone
 		if c.ss == nil || c.ss.handle == nil {
 			return 0, io.EOF
